@@ -43,7 +43,7 @@ def exact_value(lit):
 
 def float_literal_rounded(rec):
     """K1: a JSON number literal that serde_json reads through its (lossy) f64 parser — written with a fraction or
-    exponent, or an integer outside the 64-bit range — and that carries more than 15 significant decimal digits, so
+    exponent, or an integer outside the 64-bit range — and whose written significand (integer and fraction digits, leading zeros aside) has more than 15 digits, so
     that it is not guaranteed to survive that parser exactly.  Such a literal may be rounded to a neighbouring double
     before hdwallet sees it and is then accepted at the rounded value.  (Literals with <= 15 significant digits are
     always read exactly, so a wrong value for one of those is NOT in this class.)"""
@@ -56,7 +56,9 @@ def float_literal_rounded(rec):
         return False
     if not re.search(r"[.eE]", lit) and -(1 << 63) <= int(lit) < (1 << 64):
         return False
-    digits = (m.group(1) + (m.group(2) or "")).lstrip("0").rstrip("0")
+    # the significand as serde_json accumulates it: integer and fraction digits as written (leading zeros aside);
+    # trailing zeros count, e.g. 245099948978826.000e0 is read as 245099948978826000 / 10^3 and comes out inexact
+    digits = (m.group(1) + (m.group(2) or "")).lstrip("0")
     return len(digits) > 15
 
 
